@@ -185,7 +185,7 @@ def restore_local_names(tree, modname, log=None):
     restored = 0
     for q, fn in functions_with_qualnames(tree):
         rb = ref.get(q)
-        if not rb:
+        if not rb or q == "__functions__":
             continue
         ref_names = [b[0] for b in rb]
         # cheap test first: which names does the function bind
